@@ -21,10 +21,21 @@ Print Assumptions gen_preserves_function.
    original_vars_num = number of vars, orig_label fields cleared, machine_code untouched). *)
 Theorem restore_exact : forall f s, wf f ->
   restore (mutate s (dup f))
-  = mkfunc (insns f) nil (vars f) (length (vars f)) (regtab f) (lrefs f)
+  = mkfunc (insns f) nil (vars f) (length (vars f)) (gvars f) (regtab f) (lrefs f)
            (next_id (mutate s (dup f))) (machine_code f) (call_addr f) (faddr f).
 Proof. exact restore_mutate_dup. Qed.
 Print Assumptions restore_exact.
+
+(* While the generator works, every register -- the function's own variables, its hard-register-tied
+   global variables and the generator's temporaries -- has its own number and its own name: a
+   temporary (numbered vars + 1 + global_vars as new_func_reg does) never aliases an existing register,
+   and the original table entries stay where they were. *)
+Theorem gen_temp_regs_never_alias : forall f s, wf f ->
+  NoDup (map snd (regtab (mutate s (dup f)))) /\ NoDup (reg_names (mutate s (dup f)))
+  /\ gvars (mutate s (dup f)) = gvars f
+  /\ exists added, regtab (mutate s (dup f)) = regtab f ++ added.
+Proof. exact working_regs_distinct. Qed.
+Print Assumptions gen_temp_regs_never_alias.
 
 (* The working copy the generator gets is a faithful copy whose label operands and lrefs denote
    labels of the copy itself, all with fresh identities: edits of func->insns cannot reach the
@@ -71,7 +82,8 @@ Local Open Scope Z_scope.
 Definition ex_f : func :=
   mkfunc [mkinsn 0 false 11 []; mkinsn 1 true 0 []; mkinsn 2 false 12 [1%nat; 4%nat];
           mkinsn 3 false 13 []; mkinsn 4 true 0 []; mkinsn 5 false 14 []]
-         [] [100; 101; 102] 0 [100; 101; 102]
+         [] [100; 101; 102] 0 [150]                       (* 150: a variable tied to a hard register *)
+         [(100, 1%nat); (150, 2%nat); (101, 3%nat); (102, 4%nat)]   (* declared between 100 and 101 *)
          [mklref 1 (Some 4%nat) None None] 6 None None 4096.
 Example ex_f_wf : wf ex_f.
 Proof.
@@ -84,6 +96,9 @@ Proof.
   - destruct H as [<-|[]]. reflexivity.
   - destruct H as [<-|[]]. reflexivity.
   - repeat constructor; cbn; intuition discriminate.
+  - intros v [<-|[<-|[<-|[]]]]; cbn; auto.
+  - repeat constructor; cbn; intuition discriminate.
+  - intros p [<-|[<-|[<-|[<-|[]]]]]; cbn; auto with arith.
 Qed.
 Definition ex_script : list edit :=
   [EAddVar 200; EInsert 0 false 77 [7%nat]; ERemove 3; ERewrite 2 99 [10%nat]; EAddVar 100;
@@ -91,5 +106,9 @@ Definition ex_script : list edit :=
 Example ex_gen_changes_working_copy_but_not_view :
   view (mutate ex_script (dup ex_f)) <> view ex_f
   /\ view (fst (gen ex_script 8192 ex_f)) = view ex_f
-  /\ machine_code (fst (gen ex_script 8192 ex_f)) = Some 8192.
-Proof. split; [vm_compute; discriminate|split; vm_compute; reflexivity]. Qed.
+  /\ machine_code (fst (gen ex_script 8192 ex_f)) = Some 8192
+  (* the generator's temporaries 200, 201 got numbers 5 and 6: past the global's number 2, which a
+     position-based numbering (vars + 1) would have reused for... 4 = the number of variable 102 *)
+  /\ regtab (mutate ex_script (dup ex_f))
+     = [(100, 1%nat); (150, 2%nat); (101, 3%nat); (102, 4%nat); (200, 5%nat); (201, 6%nat)].
+Proof. split; [vm_compute; discriminate|split; [|split]; vm_compute; reflexivity]. Qed.
